@@ -155,13 +155,18 @@ def one_test(args):
     open(p, "w").write("\n".join(lines))
     os.utime(p, None)
     env = dict(os.environ, CARGO_NET_OFFLINE="true", CARGO_TARGET_DIR="/var/tmp/muttest.%s/target%d" % (run, w))
+    # a mutant that makes a test loop for ever is killed by the tests just as well; the whole process group is removed on timeout
+    import signal
+    pr = subprocess.Popen("cargo test --workspace --lib --offline -q 2>&1 | tail -15", cwd=work, shell=True, text=True, env=env,
+                          stdout=subprocess.PIPE, start_new_session=True)
     try:
-        # a mutant that makes a test loop for ever is killed by the tests just as well
-        r = subprocess.run("timeout -k 5 400 cargo test --workspace --lib --offline -q 2>&1 | tail -15", cwd=work, shell=True, text=True,
-                           env=env, stdout=subprocess.PIPE, timeout=900)
-        out = r.stdout
+        out, _ = pr.communicate(timeout=420)
     except subprocess.TimeoutExpired:
         out = "TIMEOUT"
+    try:
+        os.killpg(pr.pid, signal.SIGKILL)
+    except Exception:
+        pass
     ok = "test result: FAILED" not in out and "error" not in out.lower() and "TIMEOUT" not in out and out.count("test result: ok") >= 2
     return (m["file"], m["line"], m["op"], m["before"], m["after"]), ("survives" if ok else "killed"), out[-300:]
 
